@@ -235,6 +235,17 @@ func (g *caseGen) next(w *world, step int) *Op {
 			hi = lo + uint64(r.Range(1, 40))
 		}
 		max := gen.Pick(r, []uint64{0, 1, 11, 12, 13, uint64(r.Intn(300)), uint64(r.Intn(8 << 20)), math.MaxUint64, math.MaxUint64})
+		if r.Chance(1, 3) && lo >= first && hi <= last+1 && lo < hi {
+			// aim the size limit exactly at (and one around) the protobuf size of the first k entries of the range
+			if es, err := w.ms.Entries(lo, hi, math.MaxUint64); err == nil && len(es) > 0 {
+				k := r.Range(1, len(es))
+				var sz uint64
+				for _, e := range es[:k] {
+					sz += uint64(e.Size())
+				}
+				max = sz + uint64(r.Intn(3)) - 1
+			}
+		}
 		return &Op{K: "ents", Lo: lo, Hi: hi, Max: max}
 	case c < 74:
 		i := gen.Pick(r, []uint64{0, sub(first, 2), sub(first, 1), first, g.pickIndex(first, last), last, last + 1, last + 2, w.si})
